@@ -48,6 +48,22 @@ def install_io(ex: Explorer) -> None:
             return models.getslice(I, stream, VInt(pos), VInt(pos + n), None)
         return coro(go)
     ex.stubs[("reader", "readexactly")] = readexactly
+
+    def read(I: Interp, recv: V, args: list[V], kwargs: dict[str, V]) -> V:
+        """StreamReader.read(n): *up to* n bytes - whatever the current segment holds (at least
+        one byte unless the stream is at EOF)."""
+        def go() -> V:
+            n = models.as_int(I, args[0]) if args else z3.IntVal(-1)
+            stream, pos = I.ghost["stream"], I.ghost["pos"]
+            I.ghost["reads"] = I.ghost.get("reads", 0) + 1
+            total = models.seq_len(stream.t)
+            k = I.fresh_int("segment").t
+            I.assume(z3.And(k >= 0, pos + k <= total, z3.Implies(pos < total, k >= 1),
+                            z3.Implies(n >= 0, k <= n)))
+            I.ghost["pos"] = z3.simplify(pos + k)
+            return models.getslice(I, stream, VInt(pos), VInt(pos + k), None)
+        return coro(go)
+    ex.stubs[("reader", "read")] = read
     ex.stubs[("reader", "feed_eof")] = lambda I, r, a, k: NONE
 
     def write(I: Interp, recv: V, args: list[V], kwargs: dict[str, V]) -> V:
@@ -70,6 +86,14 @@ def install_io(ex: Explorer) -> None:
             return NONE
         return coro(go)
     ex.stubs[("writer", "wait_closed")] = wait_closed
+
+    def is_closing(I: Interp, recv: V, args: list[V], kwargs: dict[str, V]) -> V:
+        # true after close(); may also be true before it: asyncio force-closes the transport
+        # when the peer resets the connection
+        if I.ghost.get("writer_closed", 0) > 0:
+            return VBool(True)
+        return VBool(I.choose([z3.BoolVal(True)] * 2) == 1)
+    ex.stubs[("writer", "is_closing")] = is_closing
     ex.stubs[("task", "cancel")] = lambda I, r, a, k: (
         I.ghost.__setitem__("task_cancelled", I.ghost.get("task_cancelled", 0) + 1), NONE)[1]
 
